@@ -138,6 +138,7 @@ def gillespie_call(case, G, lab, tr, full=None):
     if case.get("nw") is not None:
         kw["recovery_weight"] = "r"
     kw["return_full_data"] = case["full"] if full is None else full
+    kw.update(case.get("_objs", {}))      # caller-owned initial-condition containers (C19)
     with rngmod.scripted(tr):
         return fn(G, float(F(case["tau"])), float(F(case["gamma"])), **kw)
 
